@@ -69,7 +69,11 @@ func commandPattern(n *Node) string {
 				fmt.Fprintf(&b, " -sep %s -j {i:%s|join:%s}", in.Sep, in.Name, in.Sep)
 			}
 		} else {
-			fmt.Fprintf(&b, " -i {i:%s}", in.Name)
+			if n.GlueIn {
+				fmt.Fprintf(&b, " -i={i:%s}", in.Name)
+			} else {
+				fmt.Fprintf(&b, " -i {i:%s}", in.Name)
+			}
 		}
 	}
 	for _, p := range n.Params {
